@@ -29,7 +29,13 @@ pub const KNOWN_D2: &str = "d2-*: the 2D canvas host object is shared between an
 
 const SETUP: &str = "|a5 5a 33| var b0 |0f| var b1 [ 1 2 ] var v0 { 1 \"a\" } var m0 0 var n0";
 
-const POOL: [&str; 54] = [
+const POOL: [&str; 60] = [
+    "1 bytes drop 12 bits close-bitstr",
+    "2 bytes drop 5 bits close-bitstr",
+    "1 bytes drop 12 bits",
+    "bitstr-not",
+    "dup bitstr-not bitstr>hex",
+    "[ 17 171 205 ] >bitstr open-bitstr 1 bytes drop 12 bits close-bitstr",
     "12 bits close-bitstr",
     "4 bits drop 9 bits close-bitstr",
     "b0 open-bitstr 12 bits close-bitstr",
